@@ -234,6 +234,9 @@ func pipeTool(tool string, args []string, in []byte) ([]byte, error) {
 	return out.Bytes(), nil
 }
 
+// MaxXzPreset bounds the xz preset ToolItems picks (preset 0 = 256 KiB dictionary … 6 = 8 MiB).
+var MaxXzPreset = 6
+
 // ToolItems encodes with the system bzip2 and xz tools.
 func ToolItems(r *rand.Rand, p Payload) ([]*Item, error) {
 	var out []*Item
@@ -248,7 +251,7 @@ func ToolItems(r *rand.Rand, p Payload) ([]*Item, error) {
 		return nil, fmt.Errorf("bzip2 tool not found")
 	}
 	if xz := findTool("xz"); xz != "" {
-		preset := r.Intn(7) // presets 0..6: dictionaries up to 8 MiB
+		preset := r.Intn(MaxXzPreset + 1) // presets 0..6: dictionaries up to 8 MiB
 		check := []string{"none", "crc32", "crc64", "sha256"}[r.Intn(4)]
 		args := []string{"-T1", "--format=xz", fmt.Sprintf("-%d", preset), "--check=" + check, "-c"}
 		setting := fmt.Sprintf("xz-%d-%s", preset, check)
